@@ -1,6 +1,6 @@
 """check configuration for C15 (loaded by lib/zvprops.py)"""
 
-PROP = {'gen_tables': ['Callers', 'TransCaller', 'TransCapture'],
+PROP = {'gen_tables': ['Callers', 'TransCaller', 'TransCapture', 'TransStackFmt'],
  'rule': 'ops: call sites inside closures reached through 8 distinguishable //go:noinline wrapper functions (depth 0–6, plus stacks deeper than '
          'the 64-entry pooled slab: 44…130 quick, every depth ≤ 300 thorough); every Sugar/Desugar/With/WithLazy/Named/WithOptions chain up to '
          'length 3 (quick) / 5 (thorough) and random longer ones with the AddCallerSkip total split over several options (negative partial sums '
